@@ -3,6 +3,7 @@ use crate::CheckDef;
 pub mod c01;
 pub mod c02;
 pub mod c03;
+pub mod c06;
 pub mod c17;
 pub mod c20;
 pub mod c21;
@@ -43,6 +44,16 @@ pub fn registry() -> &'static [CheckDef] {
             cpu_budget_ms: 60_000,
             run: c03::run_c03,
             assumptions: &["the row path of the same build is the oracle (C07's model cross-checks a bug common to both)"],
+        },
+        CheckDef {
+            id: "C06",
+            level: "exploration",
+            rule: "Two generated tables (NULL density 0/15/40/100 %, duplicates, empty tables), optional indexes on a / c so that pushdown and index scans are in play. For a generated rows-producing query Q (single table or two-table join, optional own WHERE) and predicate p (comparisons, AND/OR/NOT, IS [NOT] NULL, BETWEEN, IN lists with NULL, LIKE, CASE, arithmetic) the engine is asked Q, Q AND p, Q AND NOT p, Q AND (p) IS NULL: plain form compares the multiset union; DISTINCT compares after de-duplication (and that DISTINCT returned no duplicate); aggregate / GROUP BY forms merge COUNT/SUM (add) and MIN/MAX (fold) per key; count form compares COUNT(*) WHERE p with the number of TRUE values of SELECT (p). Failing predicates are shrunk. A case in which any of the queries errors is skipped and counted. distinct = (form, single/join, predicate feature tags).",
+            floor: 150,
+            shards: 16,
+            cpu_budget_ms: 60_000,
+            run: c06::run,
+            assumptions: &["oracle is the engine itself (ternary-logic partitioning); only well-typed predicates are generated"],
         },
         CheckDef {
             id: "C07",
